@@ -197,7 +197,7 @@ class C09(Check):
     level_text = ('Proved in Coq for the model: (sequential) for every history of create/null/copy/fromraw/assign/reset/swap/write/detach/destroy '
                   'on String, Variant, RefCount::Ptr and Xml::Variant handles the counter of a payload equals the number of live handles referring to it, '
                   'a payload is released exactly once, exactly when its last handle goes, never accessed afterwards and modified in place only while '
-                  'exactly one handle refers to it; (concurrent) the same for EVERY schedule of the interleaving machine in which threads owning '
+                  'exactly one handle refers to it, and the values read through the handles are those of the value-semantics Spec (a write through one handle changes no other); (concurrent) release/counting safety for EVERY schedule of the interleaving machine in which threads owning '
                   'distinct handles to a common payload copy, assign, swap, modify, read and drop them, each call split into its atomic '
                   'increment / decrement-and-test / plain read `ref == 1` accesses, plus completion: every schedule that lets each thread finish '
                   'ends with released <-> no handle left.')
@@ -205,8 +205,8 @@ class C09(Check):
                   'atomic steps (hardware/compiler memory ordering is outside the model) and is validated on the implementation only on the '
                   'schedules actually run: baton-passing real threads switched at the scheduling points placed before and after every atomic '
                   'operation (schedules generated, 2-thread scope exhaustive up to the stated depth) and free-running real threads on the schedules '
-                  'the OS produced, all under ASan/UBSan; the free-running scenarios are also run under TSan as a search oracle only (a plain write racing with an atomic access counts; the plain reads of `ref` that TSan reports on the unchanged code are the part that sequential consistency assumes away). Validated by correspondence only (no theorem): the values read through '
-                  'the handles (copies are independent) against the value-semantics Spec; nested Variant payloads (handles inside payloads) are '
+                  'the OS produced, all under ASan/UBSan; the free-running scenarios are also run under TSan as a search oracle only (a plain write racing with an atomic access counts; the plain reads of `ref` that TSan reports on the unchanged code are the part that sequential consistency assumes away). The values read through the handles are proved equal to the value-semantics Spec for sequential histories '
+                  '(refinement theorem); for the concurrent machine they are validated by correspondence only (no theorem). Nested Variant payloads (handles inside payloads) are '
                   'not modelled; String/Variant constructors from literals (uncounted inline data) are outside the model.')
     technique = ('machine-checked proof (Coq 8.16) about an executable model (sequential handle/block machine + interleaving machine) + differential '
                  'correspondence (ASan/UBSan): sequential histories op by op, concurrent scenarios with real threads under a baton-passing scheduler '
